@@ -12,6 +12,13 @@ import Wbxml.Lemmas.ParserSafeBasic
 namespace Wbxml.Lemmas.ParserSafe
 open Wbxml Wbxml.Model
 
+-- The error-code constants are literals (none of them is 0 = `WBXML_OK`).
+attribute [local simp] E.badDatetime E.internal E.langTableUndefined E.tagTableUndefined E.b64Enc
+  E.wvDatetimeFormat E.noCharsetConv E.charsetStrLen E.charsetNotFound E.attrTableUndefined
+  E.attrValueTableUndefined E.badOpaqueLength E.emptyWbxml E.endOfBuffer E.extValueTableUndefined
+  E.invalidStrtblIndex E.nullStringTable E.stringExpected E.strtblLength E.unknownAttrValue
+  E.unknownExtensionToken E.unknownPublicId E.unvalidMbUint32 E.wvIntegerOverflow E.invalidUnicode
+
 /-- `bind_ok h with p hp`: peel one `>>=` whose first action satisfies `h`. -/
 syntax "bind_ok " term " with " rintroPat ppSpace rintroPat : tactic
 macro_rules
@@ -113,8 +120,7 @@ theorem parseLiteral_ok (s : PState) : Ok (fun p => Adv 2 s p.2) (parseLiteral s
   have := h1.trans h2 (m := 2)
   try dsimp only
   repeat' split
-  all_goals simp only [Ok_pure, Ok_code]
-  all_goals exact this
+  all_goals first | (simp only [Ok_pure]; exact this) | simp
 
 theorem parseAttrStart_ok (s : PState) : Ok (fun p => Adv 1 s p.2) (parseAttrStart s) := by
   unfold parseAttrStart
@@ -447,7 +453,7 @@ theorem parseHeader_ok (cfg : PCfg) (bs : Bytes) :
       · split
         · bind_ok (parseMb_ok _) with ⟨cs, s3⟩ h3
           repeat' split
-          all_goals first | exact h3.suffix | exact True.intro
+          all_goals first | exact h3.suffix | simp
         · simp only [Ok_pure]; exact List.suffix_refl _
       · intro s3 h3
         refine Ok.bind (parseStrtbl_ok _) ?_
